@@ -89,7 +89,8 @@ package rlwe
 //@   requires isntt(c1)
 //@   wlog mexp(c1) == 0 given uni(c1)
 //@   requires len(ct.Value) >= 1
-//@   assigns c1
+//@   assigns ct.Value[0], c1
+//@   draw XE
 //@   case len(ct.Value) == 2 ; alias c1 = ct.Value[1]
 //@   case len(ct.Value) == 1
 //@   let c0 = ct.Value[0]
@@ -126,6 +127,7 @@ package rlwe
 //@   dyn ct *Ciphertext
 //@   requires encinv(enc) && skinv(sk)
 //@   requires len(ct.Value[0].Coeffs) >= 1
+//@   case len(ct.Value) == 3
 //@   case len(ct.Value) == 2
 //@   case len(ct.Value) == 1
 //@   let c0 = ct.Value[0]
@@ -133,6 +135,9 @@ package rlwe
 //@   ensures implies(isnil(result), draws(XE) == old(draws(XE)) + 1 && draws(UNIFORM) == old(draws(UNIFORM)) + 1)
 //@   ensures implies(isnil(result) && len(ct.Value) == 2, val(c0) + val(ct.Value[1]) * val(sk.Value.Q) == fresh(XE, old(draws(XE))))
 //@   ensures implies(isnil(result) && len(ct.Value) == 2, uni(ct.Value[1]) && indom(ct.Value[1], ct.IsNTT) && indom(c0, ct.IsNTT) && mexp(c0) == 0)
+// a receiver of degree 2 (or more) gets the same degree-1 encryption in its first two components
+// (finding F26: the mask used to go to a scratch buffer for every degree other than 1)
+//@   ensures implies(isnil(result) && len(ct.Value) == 3, val(c0) + val(ct.Value[1]) * val(sk.Value.Q) == fresh(XE, old(draws(XE))) && uni(ct.Value[1]))
 //@   ensures implies(isnil(result) && len(ct.Value) == 1, val(c0) + val(enc.buffQP[1].Q) * val(sk.Value.Q) == fresh(XE, old(draws(XE))) && uni(enc.buffQP[1].Q))
 
 //@ afunc Element.Resize
